@@ -824,8 +824,8 @@ Definition apply_regroup (r : regroup) (m : meta) : res meta :=
 
 (* DetachSummaryViewSection: AddTable with copies of the columns the section shows and a 'group' formula column
    (final table id, column kinds and the tables their types refer to given by the caller), then the section and
-   all its fields move to the new table.  The raw section of the summary table is not refused by the code
-   (known finding C09-detach-raw-section): outside the fragment. *)
+   all its fields move to the new table.  The raw section of the summary table is refused (section.isRaw,
+   commit 811c657). *)
 Definition set_refts (refts : list (Z * Z)) (m : meta) : meta :=
   set_columns m (map (fun c => match lookup (c_id c) refts with
                                | Some r => mkC (c_id c) (c_parent c) (c_kind c) (c_display c) (c_visible c)
@@ -837,7 +837,7 @@ Definition detach (sec name : Z) (kinds : list Z) (refts remap : list (Z * Z)) (
   | None => Fail
   | Some s =>
     if negb (is_summary_table m (s_table s)) then Fail
-    else if is_raw m s then Unmodelled
+    else if is_raw m s then Fail
     else bind (add_table name kinds true m) (fun '(m1, t) =>
       let m2 := set_refts refts m1 in
       if sec_is_card m2 sec || sec_is_raw m2 sec then Unmodelled
